@@ -12,7 +12,7 @@ Deferreds with success or failure, colliding attempts, eventual-queue turns), of
 | … (reading the best version, overwriting, uploading, modifying, directory edits built on them) | every such operation is a `_do_serialized` request (`Op.req`); its kind does not matter to the queue | which public methods go through `_do_serialized` (seed C13-b: `DirectoryNode._read`): **monitor only** (reads requested right after edits) |
 | run one at a time, in request order | `starts_and_finishes_alternate`, `serial_order`, `successes_in_request_order` | |
 | none starts before the previous one finished | `serial_order`, `no_start_before_last_attempt`, `no_attempt_after_finish` (an operation = all of its attempts; seed C13-c) | that `_modify_and_retry` chains the next attempt into the operation's Deferred: **correspondence** (the real function is the callable in the scripted schedules) |
-| a failed operation does not block later ones | `failed_op_does_not_block`, `idle_means_all_done` | |
+| a failed operation does not block later ones | `failed_op_does_not_block` (for operation bodies that do not enqueue on their own node and wait: `NoInner`), `idle_means_all_done`, `no_inner_never_blocked`; `self_enqueue_deadlocks` / `self_enqueue_counterexample`: a body that does (seed C13-e) blocks the node for ever | that no operation body of the real code does so: **monitor only** (read-only retry family: every Deferred fires once the grid is quiescent) |
 | so concurrent directory edits through one client never lose each other's changes | `no_lost_edit`, `no_lost_directory_edit` (final contents = the successful modifiers folded in request order over what the first read) | each directory edit being such a modifier on a name map: C20; competing writers from other clients: C12 (monitor here: collision family) |
 -/
 namespace Tahoe.C13
@@ -168,8 +168,10 @@ theorem idle_means_all_done (ops : List Op) (h : (runOps ops).core.waiting = non
   · rw [hb.waiting] at h; simp at h
 
 /-- when the running operation `j` fails, the serializer moves on at once: it is idle (everything
-requested has run) or it has started a later operation. -/
-theorem failed_op_does_not_block (ops : List Op) (j : Nat) (h : (runOps ops).core.waiting = some j) :
+requested has run) or it has started a later operation.  Hypothesis `NoInner`: no operation body
+enqueues on its own node's serializer and waits for it (what the comment in `_do_serialized` forbids);
+`self_enqueue_deadlocks` shows what the code does when one does. -/
+theorem failed_op_does_not_block (ops : List Op) (hno : NoInner ops) (j : Nat) (h : (runOps ops).core.waiting = some j) :
     let s' := runOps (ops ++ [.fin j .fail])
     Ev.finish j .fail ∈ s'.core.log ∧
     (s'.core.waiting = none ∨ ∃ j', s'.core.waiting = some j' ∧ j < j') := by
@@ -189,7 +191,9 @@ theorem failed_op_does_not_block (ops : List Op) (j : Nat) (h : (runOps ops).cor
     -- the log of s' extends the old log by `finish j fail` and what ran afterwards
     have hlog : ∃ tail, s'.core.log = ((runOps ops).core.log ++ [Ev.finish j0 .fail]) ++ tail := by
       rw [hs']
-      simp only [step, if_pos h, commit]
+      have hbl : blocked (runOps ops).core j0 = false := by
+        unfold blocked; rw [inner_nil_of_noInner ops hno]; rfl
+      simp only [step, hbl, Bool.false_eq_true, if_false, finStep, if_pos h, commit]
       rw [kick_idle _ rfl]
       exact run_log_grows _ _
     obtain ⟨tail, htail⟩ := hlog
@@ -201,6 +205,41 @@ theorem failed_op_does_not_block (ops : List Op) (j : Nat) (h : (runOps ops).cor
     rcases ho with ho | ho
     · left; rw [hw, ho]
     · right; exact ⟨m, by rw [hw, ho], by omega⟩
+
+/-- bodies that do not enqueue on their own node are never blocked from inside -/
+theorem no_inner_never_blocked (ops : List Op) (hno : NoInner ops) (i : Nat) : blocked (runOps ops).core i = false := by
+  unfold blocked; rw [inner_nil_of_noInner ops hno]; rfl
+
+example : NoInner [.req none, .req none, .fin 0 .fail, .retry 1, .fin 1 .ok, .turn] := by
+  intro op hop i
+  simp only [List.mem_cons, List.not_mem_nil, or_false] at hop
+  rcases hop with h | h | h | h | h | h <;> subst h <;> simp
+
+/-- **self-enqueue deadlocks**: once the body of an operation has requested another serialized
+operation on its own node and waits for it, that operation never finishes under ANY continuation of
+the schedule, nothing requested on the node afterwards ever starts (the log never gets past
+`start 0`), and no event can repair it.  This is the behaviour `_do_serialized` warns about; the
+statement's "a failed operation does not block later ones" cannot hold for such a body. -/
+theorem self_enqueue_deadlocks (ops : List Op) :
+    let s := runOps ([.req none, .innerReq 0] ++ ops)
+    s.core.waiting = some 0 ∧ scan s.core.log (0, none) = some (0, some 0) := by
+  intro s
+  have h0 : SelfWait (runOps [.req none, .innerReq 0]) 0 1 := ⟨by decide, by decide, by decide⟩
+  have h : SelfWait s 0 1 := by
+    simp only [s, runOps, List.foldl_append]
+    exact selfWait_foldl ops _ 0 1 h0
+  refine ⟨h.1, ?_⟩
+  obtain ⟨n, _, hinv⟩ := inv_runOps ([.req none, .innerReq 0] ++ ops)
+  rcases hinv with hi | ⟨j, k, _, hb⟩
+  · have := hi.waiting; rw [h.1] at this; simp at this
+  · have hj : j = 0 := by have := hb.waiting; rw [h.1] at this; simpa using this.symm
+    subst hj; exact hb.scan
+
+/-- the same on one concrete schedule: every completion is attempted, a later request is made, the
+eventual queue runs -- the log stays at `start 0`, three operations are queued for ever -/
+theorem self_enqueue_counterexample :
+    let s := runOps [.req none, .innerReq 0, .req none, .fin 1 .ok, .fin 0 .ok, .fin 2 .fail, .turn, .fin 0 .fail]
+    s.core.log = [.start 0] ∧ s.core.waiting = some 0 ∧ s.core.nextId = 3 ∧ s.chain.length = 8 := by decide
 
 /-- **no lost edit**: under every schedule the shared content equals the successful operations'
 modifiers applied in request order (each read-modify-write operation reads when it starts and
